@@ -2,9 +2,9 @@ package main
 
 import (
 	"flag"
-	"runtime/debug"
 	"fmt"
 	"os"
+	"runtime/debug"
 	"sort"
 )
 
